@@ -178,6 +178,9 @@ type Harness struct {
 	InlineAll bool
 	// StopAfter ends the run (successfully) right after an effect for which it returns true.
 	StopAfter func(e Effect) bool
+	// SelectChoice picks the ready case of the nth (0-based) execution of a select statement in a run;
+	// when nil, the choice atom named "select@<function>" is used for every execution.
+	SelectChoice func(st *State, name string, nth int) int
 }
 
 type State struct {
@@ -424,6 +427,7 @@ type machine struct {
 	out   *Outcome
 	steps int
 	depth int
+	nsel  map[string]int
 }
 
 type frame struct {
@@ -1056,6 +1060,13 @@ func (m *machine) evalInstr(fr *frame, v ssa.Value) AV {
 	case *ssa.Select:
 		name := fmt.Sprintf("select@%s", fname(fr.fn))
 		n, ok := m.st.choice[name]
+		if m.h.SelectChoice != nil {
+			if m.nsel == nil {
+				m.nsel = map[string]int{}
+			}
+			n, ok = m.h.SelectChoice(m.st, name, m.nsel[name]), true
+			m.nsel[name]++
+		}
 		if !ok {
 			m.fail("select without a declared choice atom %s", name)
 		}
